@@ -1327,6 +1327,26 @@ func main() {
 						r.Violation(map[string]string{"class": "nested-shape-admitted-as-parameter/" + sn, "shape": sn, "in": loc}, len(sn),
 							map[string]any{"in": loc, "style": st, "explode": ex, "shape": sn, "schema": json.RawMessage(nested[sn]), "consequence": "the uri encoders panic on nested arrays / objects by contract: the generated client panics on the first value that has the nested part"})
 					}
+					// the same shape behind an earlier parameter of the operation (and of the path item) that
+					// uses the inner component at the top level, where it is allowed: what is remembered
+					// about a component must not admit it in a nested position
+					if i := strings.Index(nested[sn], `"$ref":"#/components/schemas/In`); i >= 0 {
+						inner := nested[sn][i+len(`"$ref":"`):]
+						inner = inner[:strings.IndexByte(inner, '"')]
+						first := fmt.Sprintf(`{"name":"q0","in":"query","style":"form","explode":true,"schema":{"$ref":%q}}`, inner)
+						second := fmt.Sprintf(`{"name":"p","in":%q,"required":%s,"style":%q,"explode":%v,"schema":%s}`, loc, req, st, ex, nested[sn])
+						for layout, params := range []string{
+							`"get":{"operationId":"op","parameters":[` + first + `,` + second + `],"responses":{"200":{"description":"ok"}}}`,
+							`"parameters":[` + first + `],"get":{"operationId":"op","parameters":[` + second + `],"responses":{"200":{"description":"ok"}}}`,
+						} {
+							doc2 := strings.Replace(doc, doc[strings.Index(doc, `"get":`):strings.Index(doc, `},"components"`)-1], params, 1)
+							nestedProbed++
+							if admittedDoc(doc2) {
+								r.Violation(map[string]string{"class": "nested-shape-admitted-behind-another-parameter/" + sn, "shape": sn, "in": loc, "layout": fmt.Sprint(layout)}, len(sn),
+									map[string]any{"in": loc, "style": st, "explode": ex, "shape": sn, "document": doc2, "consequence": "the uri encoders panic on nested arrays / objects by contract"})
+							}
+						}
+					}
 				}
 			}
 		}
